@@ -18,7 +18,7 @@ import (
 func init() {
 	core.Register(&core.Prop{
 		ID: "C14",
-		Rule: "case = one simple open line string (monotone, incrementally built simple walk, spiral, 2-vertex) or multi-line string of 2-3 mutually disjoint members, and one valid polygonal clip shape from the C01 generators (star with 0-3 holes, comb, staircase, multi-polygon, box; presented as Polygon, MultiPolygon or *Bounds), in general position (no line vertex within 1e-7 d of the boundary, no polygon vertex within 1e-7 d of the line); " +
+		Rule: "case = one simple open line string (monotone, incrementally built simple walk, spiral, axis-parallel, 2-vertex; one case in seven puts all 2-3 vertices inside one star-shaped hole, each out in a different arm of it) or multi-line string of 2-3 mutually disjoint members, and one valid polygonal clip shape from the C01 generators (star with 0-3 holes, comb, staircase, multi-polygon, box; presented as Polygon, MultiPolygon or *Bounds), in general position (no line vertex within 1e-7 d of the boundary, no polygon vertex within 1e-7 d of the line); " +
 			"oracle = harness reference clipping (exact crossing tests, intersection parameters, exact midpoint membership per sub-interval): inside length L*, emptiness, and for every returned vertex distance to the line and membership in / distance to the polygon; " +
 			"an evaluation is one Clip call judged; non-trivial = line that crosses the polygon boundary at least twice with 0 < L* < length; distinct by input hash",
 		Assumptions: []string{"general position enforced by the harness", "tolerances 1e-9 relative (length) and 1e-9 x diameter (vertex positions)"},
@@ -31,7 +31,7 @@ func init() {
 		Run: run,
 		Floors: func(t string) map[string]int64 {
 			return map[string]int64{"cfg.entirely_inside": 100, "cfg.entirely_outside_bbox_overlap": 100, "cfg.entirely_outside_bbox_disjoint": 100, "cfg.crosses_hole": 100, "cfg.enters_several_times": 200, "cfg.two_vertex_line": 100,
-				"recv.MultiLineString": 300, "arg.*Bounds": 100, "arg.MultiPolygon": 300, "arg.Polygon": 300, "result.vertices_checked": 5000, "line.long": 100, "line.axis_parallel": 500}
+				"recv.MultiLineString": 300, "arg.*Bounds": 100, "arg.MultiPolygon": 300, "arg.Polygon": 300, "result.vertices_checked": 5000, "line.long": 100, "line.axis_parallel": 500, "line.all_vertices_in_one_hole": 300}
 		},
 	})
 }
@@ -163,7 +163,12 @@ func run(c *core.Ctx, idx int) {
 	r := c.R
 	scale := math.Pow(10, r.Range(-2, 3))
 	ox, oy := r.Range(-5, 5)*scale, r.Range(-5, 5)*scale
-	op := c01.GenOperand(r, ox, oy, scale, polyKinds[r.Intn(len(polyKinds))], 40)
+	cfgHint := r.Intn(7)
+	kind := polyKinds[r.Intn(len(polyKinds))]
+	if cfgHint == 6 {
+		kind = "starholes" // every line vertex inside one (concave) hole, in different arms of it
+	}
+	op := c01.GenOperand(r, ox, oy, scale, kind, 40)
 	holeRing := map[int]bool{}
 	ri := 0
 	for _, pg := range op.Polys {
@@ -180,7 +185,27 @@ func run(c *core.Ctx, idx int) {
 		nl = r.IntRange(2, 3)
 	}
 	var lines [][]geom.Point
-	cfgHint := r.Intn(6)
+	if cfgHint == 6 && len(op.Holes) > 0 && len(op.Polys) == 1 && len(op.Polys[0]) > 1 {
+		// all vertices inside one star-shaped hole, each out in a different arm (towards a
+		// different hole vertex): the segments between them cut across the polygon material
+		// between the arms whenever the hole is concave there
+		hk := r.Intn(len(op.Holes))
+		hole := gen.OpenRing(op.Polys[0][1+hk])
+		hc := op.Holes[hk]
+		perm := r.Perm(len(hole))
+		nv := r.IntRange(2, 3)
+		if nv > len(hole) {
+			nv = len(hole)
+		}
+		var l []geom.Point
+		for _, vi := range perm[:nv] {
+			t := r.Range(0.6, 0.97)
+			l = append(l, geom.Point{X: hc.X + t*(hole[vi].X-hc.X), Y: hc.Y + t*(hole[vi].Y-hc.Y)})
+		}
+		lines = append(lines, l)
+		nl = 0
+		c.Count("line.all_vertices_in_one_hole")
+	}
 	for k := 0; k < nl; k++ {
 		n := r.IntRange(2, 14)
 		if r.Chance(0.1) {
